@@ -9,7 +9,7 @@ tier=${3:-quick}
 wt=$(mktemp -d /tmp/seedwt.XXXXXX)
 rmdir $wt
 git -C /repo worktree add -q --detach $wt HEAD || exit 9
-git -C $wt apply $PWD/$d/patch.diff || { git -C /repo worktree remove --force $wt; echo "$1: patch does not apply"; exit 9; }
+git -C $wt apply $PWD/$d/patch.diff 2>/dev/null || git -C $wt apply --3way $PWD/$d/patch.diff 2>/dev/null || { git -C /repo worktree remove --force $wt; echo "$1: patch does not apply"; exit 9; }
 ev=$(mktemp -d /tmp/seedev.XXXXXX)
 VERIF_REPO_SRC=$wt/src VERIF_EVIDENCE_DIR=$ev ./vf check $pid $tier > /tmp/seedtest.$1.$pid.log 2>&1
 rc=$?
